@@ -101,15 +101,18 @@ def run_serial(cfg):
     from pySDC.implementations.controller_classes.controller_nonMPI import controller_nonMPI
     desc, cp = description(dict(cfg, mpi=False))
     out = dict(exc=None)
+    c = None
     try:
         c = controller_nonMPI(num_procs=cfg['NP'], controller_params=cp, description=desc)
         P = c.MS[0].levels[0].prob
         uend, stats = c.run(u0=P.u_exact(0.0), t0=cfg['T0'] * UNIT, Tend=cfg['TEND'] * UNIT)
         out['uend'] = hashlib.sha1(np.asarray(uend).tobytes()).hexdigest()[:12]
-        out['steps'] = sorted(_steplog(c), key=lambda s: (s['t'], s['riar']))
+        out['steps'] = sorted(_steplog(c), key=lambda s: (s['t'], s['riar'], s['slot'], s['dt'], s['niter']))
     except Exception as e:  # noqa
         out['exc'] = type(e).__name__
         out['msg'] = str(e)[:200]
+        if c is not None:
+            out['steps'] = sorted(_steplog(c), key=lambda s: (s['t'], s['riar'], s['slot'], s['dt'], s['niter']))
     return out
 
 
@@ -121,9 +124,17 @@ def run_mpi(cfg, sched_seed=0, policy='random'):
     def target(comm):
         desc, cp = desc_cp[comm.rank]
         c = controller_MPI(controller_params=cp, description=desc, comm=comm)
+        sizes = []
+        orig = c.restart_block
+
+        def rb(size, time, u0, comm):  # observes the number of active ranks of every block this rank takes part in
+            sizes.append(size)
+            return orig(size, time, u0, comm)
+
+        c.restart_block = rb
         P = c.S.levels[0].prob
         uend, stats = c.run(u0=P.u_exact(0.0), t0=cfg['T0'] * UNIT, Tend=cfg['TEND'] * UNIT)
-        return dict(uend=hashlib.sha1(np.asarray(uend).tobytes()).hexdigest()[:12], steps=_steplog(c))
+        return dict(uend=hashlib.sha1(np.asarray(uend).tobytes()).hexdigest()[:12], steps=_steplog(c), rank=comm.rank, last_size=sizes[-1] if sizes else 0)
 
     results, w, errors = MPI.run_world(cfg['NP'], target, seed=sched_seed, policy=policy)
     out = dict(exc=None, deadlock=bool(w.deadlock), failed=w.failed, events=w.events, nchoices=len(w.choices))
@@ -136,10 +147,13 @@ def run_mpi(cfg, sched_seed=0, policy='random'):
         out['all_exc'] = [type(e).__name__ if e is not None else None for e in errors]
     steps = []
     uends = []
+    # ranks that take part in the last block: the first `size` ranks of the last block rank 0 ran (active ranks are a prefix)
+    nlast = results[0]['last_size'] if results and results[0] is not None else len(results)
     for r in results:
         if r is not None:
             steps += r['steps']
-            uends.append(r['uend'])
-    out['steps'] = sorted(steps, key=lambda s: (s['t'], s['riar']))
+            if r['rank'] < nlast:
+                uends.append(r['uend'])
+    out['steps'] = sorted(steps, key=lambda s: (s['t'], s['riar'], s['slot'], s['dt'], s['niter']))
     out['uends'] = uends
     return out
